@@ -355,7 +355,7 @@ func runGrid(thorough bool, samples *ev.Samples) gridStats {
 				if i >= len(cases) {
 					return
 				}
-				if run.Expired() {
+				if expired() {
 					run.Incomplete("fan-out grid cut by the time budget")
 					return
 				}
